@@ -23,6 +23,8 @@ pub enum VOp {
     Collect,
     /// update through the handle to the initial child "a" kept since setup
     HandleUpd(f64),
+    /// fetch ballast child i (see `VecDriver::ballast`) and add 1 to it
+    BTouch(usize),
 }
 
 #[derive(Clone, Copy, Debug, PartialEq, Eq, serde::Serialize, serde::Deserialize)]
@@ -66,18 +68,35 @@ pub enum TheVec {
 pub struct VecShared {
     pub v: TheVec,
     pub kept: Option<Handle>,
+    /// number of further children "z00", "z01", ... created in setup, each holding BALLAST_AMOUNT
+    pub ballast: usize,
+    /// number of BTouch operations in the driver's programs
+    pub touches: usize,
+}
+
+pub const BALLAST_AMOUNT: f64 = 3.0;
+
+pub fn ballast_key(i: usize) -> String {
+    format!("z{:02}", i)
 }
 
 pub const PRE_AMOUNT: f64 = 1024.0;
 
 impl VecShared {
     pub fn new(f: VFlavour, start: Start) -> VecShared {
+        VecShared::with_ballast(f, start, 0, 0)
+    }
+
+    pub fn with_ballast(f: VFlavour, start: Start, ballast: usize, touches: usize) -> VecShared {
         let v = match f {
             VFlavour::IntCounterList => TheVec::I(IntCounterVec::new(Opts::new("v", "h"), &["l"]).unwrap()),
             VFlavour::CounterMap => TheVec::C(CounterVec::new(Opts::new("v", "h"), &["l"]).unwrap()),
             VFlavour::HistogramList => TheVec::H(HistogramVec::new(HistogramOpts::new("v", "h").buckets(vec![1.0]), &["l"]).unwrap()),
         };
-        let mut sh = VecShared { v, kept: None };
+        let mut sh = VecShared { v, kept: None, ballast, touches };
+        for i in 0..ballast {
+            sh.get_key(&ballast_key(i)).unwrap().upd(BALLAST_AMOUNT);
+        }
         if start != Start::Empty {
             let h = sh.get(0).unwrap();
             h.upd(PRE_AMOUNT);
@@ -90,7 +109,10 @@ impl VecShared {
     }
 
     pub fn get(&self, k: usize) -> Result<Handle, String> {
-        let key = KEYS[k];
+        self.get_key(KEYS[k])
+    }
+
+    pub fn get_key(&self, key: &str) -> Result<Handle, String> {
         match &self.v {
             TheVec::I(v) => v.get_metric_with_label_values(&[key]).map(Handle::I).map_err(|e| e.to_string()),
             TheVec::C(v) => {
@@ -144,6 +166,23 @@ impl VecShared {
             kids.push((m.get_label()[0].value().to_string(), val));
         }
         kids.sort_by(|a, b| a.0.cmp(&b.0));
+        if self.ballast > 0 {
+            // the ballast children are judged right here: each exactly once, holding its setup amount plus at most the
+            // touches the programs make (the exact final amounts are checked at quiescence by `check`)
+            let (b, rest): (Vec<_>, Vec<_>) = kids.into_iter().partition(|(k, _)| k.starts_with('z'));
+            let want: Vec<String> = (0..self.ballast).map(ballast_key).collect();
+            let got: Vec<String> = b.iter().map(|(k, _)| k.clone()).collect();
+            if got != want {
+                return Val::S(format!("ballast children shown: {:?}, expected each of {} exactly once", got, self.ballast));
+            }
+            if let Some((k, v)) = b.iter().find(|(_, v)| *v < BALLAST_AMOUNT || *v > BALLAST_AMOUNT + self.touches as f64 || v.fract() != 0.0) {
+                return Val::S(format!("ballast child {} shows {}", k, v));
+            }
+            let touched: f64 = b.iter().map(|(_, v)| *v - BALLAST_AMOUNT).sum();
+            let mut rest = rest;
+            rest.push(("~touched".into(), touched));
+            return Val::Kids(rest);
+        }
         Val::Kids(kids)
     }
 }
@@ -152,6 +191,8 @@ pub struct VecDriver {
     pub flavour: VFlavour,
     pub start: Start,
     pub programs: Vec<Vec<VOp>>,
+    /// children created before the threads start, besides what `start` says (programs of such drivers do not reset)
+    pub ballast: usize,
 }
 
 impl VecDriver {
@@ -160,6 +201,7 @@ impl VecDriver {
             flavour: serde_json::from_value(v["flavour"].clone()).ok()?,
             start: serde_json::from_value(v["start"].clone()).ok()?,
             programs: serde_json::from_value(v["programs"].clone()).ok()?,
+            ballast: v["ballast"].as_u64().unwrap_or(0) as usize,
         })
     }
 }
@@ -182,13 +224,18 @@ pub fn expand(p: &[VOp]) -> Vec<VOp> {
 impl Driver for VecDriver {
     type Shared = VecShared;
     fn name(&self) -> String {
-        format!("{:?} {:?} {:?}", self.flavour, self.start, self.programs)
+        if self.ballast > 0 {
+            format!("{:?} {:?}+{} children {:?}", self.flavour, self.start, self.ballast, self.programs)
+        } else {
+            format!("{:?} {:?} {:?}", self.flavour, self.start, self.programs)
+        }
     }
     fn threads(&self) -> usize {
         self.programs.len()
     }
     fn setup(&self) -> VecShared {
-        VecShared::new(self.flavour, self.start)
+        let touches = self.programs.iter().flatten().filter(|o| matches!(o, VOp::BTouch(_))).count();
+        VecShared::with_ballast(self.flavour, self.start, self.ballast, touches)
     }
     fn body(&self, t: usize, sh: &VecShared, rec: &Recorder) {
         let mut cur: Option<Handle> = None;
@@ -234,6 +281,15 @@ impl Driver for VecDriver {
                         Val::Unit
                     });
                 }
+                VOp::BTouch(i) => {
+                    rec.call("btouch", Val::I(i as i64), || match sh.get_key(&ballast_key(i)) {
+                        Ok(h) => {
+                            h.upd(1.0);
+                            Val::B(true)
+                        }
+                        Err(_) => Val::B(false),
+                    });
+                }
                 VOp::W(..) => unreachable!(),
             }
         }
@@ -244,14 +300,38 @@ impl Driver for VecDriver {
     }
 
     fn spec(&self) -> serde_json::Value {
-        serde_json::json!({"kind": "vec", "flavour": self.flavour, "start": self.start, "programs": self.programs})
+        serde_json::json!({"kind": "vec", "flavour": self.flavour, "start": self.start, "programs": self.programs, "ballast": self.ballast})
     }
 
     fn check(&self, sh: &VecShared, x: &Execution) -> Result<String, (String, String)> {
         // the quiescent collect after all threads finished is made by the epilogue (thread 99)
-        let calls = x.calls.clone();
-        let _ = sh;
-        let show = || calls.iter().map(|c| c.show()).collect::<Vec<_>>().join("; ");
+        let mut calls = x.calls.clone();
+        let show0 = calls.iter().map(|c| c.show()).collect::<Vec<_>>().join("; ");
+        if self.ballast > 0 {
+            // ballast bookkeeping: a collection shows at least the touches that returned before it started, at most those
+            // that were invoked before it returned
+            let touches: Vec<Call> = calls.iter().filter(|c| c.name == "btouch").cloned().collect();
+            if let Some(t) = touches.iter().find(|t| t.ret != Val::B(true)) {
+                return Err((format!("C10:ballast-child-unavailable:{:?}", self.flavour), format!("{} failed; history: {}", t.show(), show0)));
+            }
+            for c in calls.iter_mut().filter(|c| c.name == "collect") {
+                if let Val::Kids(k) = &mut c.ret {
+                    if let Some(i) = k.iter().position(|(key, _)| key == "~touched") {
+                        let (_, seen) = k.remove(i);
+                        let lo = touches.iter().filter(|t| t.precedes(c)).count() as f64;
+                        let hi = touches.iter().filter(|t| !c.precedes(t)).count() as f64;
+                        if seen < lo || seen > hi {
+                            return Err((
+                                format!("C10:ballast-updates-lost:{:?}", self.flavour),
+                                format!("collection {} shows {} updates of the {} pre-existing children, between {} and {} expected; history: {}", c.show(), seen, sh.ballast, lo, hi, show0),
+                            ));
+                        }
+                    }
+                }
+            }
+        }
+        let calls = calls;
+        let show = || show0.clone();
         // structural checks that need no search
         for c in calls.iter().filter(|c| c.name == "collect") {
             match &c.ret {
@@ -365,6 +445,19 @@ impl SeqSpec for VecSpec {
         let mut s = st.clone();
         let idx = self.index_of(call);
         let t = if call.thread == 99 { 0 } else { call.thread };
+        // A collection reads the children's values while the set of children stands still: between the instant its set of
+        // children was current and the instant an update it shows took effect, no child is created or removed. (An update
+        // a collection claimed but which has not been linearized yet is such an open window.)
+        let open_window = (0..s.claims.len()).any(|i| s.claims[i].is_some() && s.target[i].is_none());
+        let structural = match (call.name.as_str(), &call.arg) {
+            ("get", Val::I(k)) => s.map[*k as usize].is_none(),
+            ("remove", Val::I(k)) => s.map[*k as usize].is_some(),
+            ("reset", _) => s.map.iter().any(|m| m.is_some()),
+            _ => false,
+        };
+        if open_window && structural {
+            return None;
+        }
         match call.name.as_str() {
             "get" => {
                 let k = match call.arg {
@@ -408,6 +501,7 @@ impl SeqSpec for VecSpec {
                 s.map = [None, None];
                 Some(s)
             }
+            "btouch" => Some(s),
             "collect" => {
                 let kids = match &call.ret {
                     Val::Kids(k) => k,
